@@ -15,6 +15,7 @@ import (
 	"github.com/dcaiafa/lox/verif/internal/mc"
 	"github.com/dcaiafa/lox/verif/internal/pipe"
 	"github.com/dcaiafa/lox/verif/internal/px"
+	"github.com/dcaiafa/lox/verif/internal/st3"
 )
 
 // A layout is a sequence of declaration items; the harness prints the text
@@ -312,16 +313,25 @@ func c19One(ws *pipe.Workspace, l c19Layout, st *mc.Stats) []mc.Violation {
 			return out
 		}
 	}
-	for _, n := range want {
-		if toStr[n] != n {
-			bad("tokentostring", fmt.Sprintf("_TokenToString(%s) returns %q", n, toStr[n]))
+	if len(toStr) == 0 && deflt == "" {
+		// _TokenToString is not a switch over the constants (template
+		// refactored): its behaviour is decided by the compiled sample only
+		st.Add("tokentostring_ast_shape_unknown", 1)
+	} else {
+		for _, n := range want {
+			if toStr[n] != n {
+				bad("tokentostring", fmt.Sprintf("_TokenToString(%s) returns %q", n, toStr[n]))
+			}
+		}
+		if len(toStr) != len(want) {
+			bad("tokentostring", fmt.Sprintf("_TokenToString has %d cases for %d constants", len(toStr), len(want)))
+		}
+		if deflt != "???" {
+			bad("tokentostring", fmt.Sprintf("_TokenToString default returns %q", deflt))
 		}
 	}
-	if len(toStr) != len(want) {
-		bad("tokentostring", fmt.Sprintf("_TokenToString has %d cases for %d constants", len(toStr), len(want)))
-	}
-	if deflt != "???" {
-		bad("tokentostring", fmt.Sprintf("_TokenToString default returns %q", deflt))
+	if c19Collect != nil {
+		c19Collect(l, sp, b, want)
 	}
 	constOf := map[string]int{}
 	for i, n := range want {
@@ -433,6 +443,75 @@ func c19Layouts(maxLen int, splitUpTo int) []c19Layout {
 	return out
 }
 
+// c19Collect, when set, receives every accepted layout (the worker keeps a
+// sample of them for the compiled _TokenToString check).
+var c19Collect func(l c19Layout, sp *c19Spec, b *px.Built, want []string)
+
+type c19Compiled struct {
+	l     c19Layout
+	files map[string]string
+	want  []string
+}
+
+// c19RunCompiled compiles the sampled packages for real and calls
+// _TokenToString for every constant and for -1, n, n+1 and MaxInt.
+func c19RunCompiled(c *mc.Ctx, sample []c19Compiled) {
+	if len(sample) == 0 {
+		return
+	}
+	var pkgs []st3.Pkg
+	var mb strings.Builder
+	mb.WriteString("package main\n\nimport (\n\t\"fmt\"\n")
+	for i := range sample {
+		fmt.Fprintf(&mb, "\t%q\n", fmt.Sprintf("example.com/st3/k%d", i))
+	}
+	mb.WriteString(")\n\nfunc call(f func(int) string, v int) (s string) {\n\tdefer func() {\n\t\tif r := recover(); r != nil {\n\t\t\ts = fmt.Sprint(\"PANIC: \", r)\n\t\t}\n\t}()\n\treturn f(v)\n}\n\nfunc main() {\n")
+	for i, sc := range sample {
+		name := fmt.Sprintf("k%d", i)
+		files := map[string]string{}
+		for n, t := range sc.files {
+			files[n] = strings.Replace(t, "package carrier", "package "+name, 1)
+		}
+		files["export.go"] = "package " + name + "\n\nfunc TokenToString(t int) string { return _TokenToString(t) }\n"
+		pkgs = append(pkgs, st3.Pkg{Name: name, Files: files})
+		n := len(sc.want)
+		fmt.Fprintf(&mb, "\tfor _, v := range []int{-1, %d, %d, 1<<62", n, n+1)
+		for v := 0; v < n; v++ {
+			fmt.Fprintf(&mb, ", %d", v)
+		}
+		fmt.Fprintf(&mb, "} {\n\t\tfmt.Printf(\"%d %%d %%s\\n\", v, call(%s.TokenToString, v))\n\t}\n", i, name)
+	}
+	mb.WriteString("}\n")
+	r := st3.Run(fmt.Sprintf("c19.%d", c.Shard), pkgs, mb.String(), false, nil)
+	if r.BuildErr != "" {
+		c.Stats.HarnessError("stage-3 build for C19: %s", strings.Join(head(strings.Split(r.BuildErr, "\n"), 4), " | "))
+		return
+	}
+	for _, line := range strings.Split(strings.TrimSpace(string(r.Stdout)), "\n") {
+		var i, v int
+		var got string
+		parts := strings.SplitN(line, " ", 3)
+		if len(parts) != 3 {
+			continue
+		}
+		fmt.Sscan(parts[0], &i)
+		fmt.Sscan(parts[1], &v)
+		got = parts[2]
+		sc := sample[i]
+		want := "???"
+		if v >= 0 && v < len(sc.want) {
+			want = sc.want[v]
+		}
+		c.Stats.Add("compiled_tokentostring_calls", 1)
+		if got != want {
+			raw, _ := json.Marshal(sc.l)
+			c.Stats.Violate(mc.Violation{Property: "C19", Check: "C19", Kind: "tokentostring-compiled", Size: len(sc.l.Items), Case: raw,
+				Detail: fmt.Sprintf("layout %q: the compiled _TokenToString(%d) returns %q, expected %q (constants %v)", sc.l.Items, v, got, want, sc.want)})
+		}
+	}
+	c.Stats.Add("packages_compiled", int64(len(sample)))
+}
+
 func c19Worker(c *mc.Ctx) {
 	ws := pipe.NewWorkspace("c19")
 	defer ws.Close()
@@ -440,6 +519,21 @@ func c19Worker(c *mc.Ctx) {
 	if c.Quick() {
 		maxLen, split = 4, 3
 	}
+	var sample []c19Compiled
+	seenLen := map[int]int{}
+	c19Collect = func(l c19Layout, sp *c19Spec, b *px.Built, want []string) {
+		// keep a few layouts of every size
+		if seenLen[len(want)] >= 2 || len(sample) >= 10 {
+			return
+		}
+		seenLen[len(want)]++
+		sample = append(sample, c19Compiled{l: l, want: want, files: map[string]string{
+			"user.go": c19UserGo(sp.g), "base.gen.go": b.Res.Base, "lexer.gen.go": b.Res.Lexer, "parser.gen.go": b.Res.Parser}})
+	}
+	defer func() {
+		c19Collect = nil
+		c19RunCompiled(c, sample)
+	}()
 	for i, l := range c19Layouts(maxLen, split) {
 		if !c.Mine(int64(i)) {
 			continue
@@ -462,8 +556,18 @@ func c19Replay(raw json.RawMessage) *mc.Violation {
 	}
 	ws := pipe.NewWorkspace("c19r")
 	defer ws.Close()
-	var st mc.Stats
-	vs := c19One(ws, l, &st)
+	ctx := &mc.Ctx{NShards: 1}
+	var sample []c19Compiled
+	c19Collect = func(l c19Layout, sp *c19Spec, b *px.Built, want []string) {
+		sample = append(sample, c19Compiled{l: l, want: want, files: map[string]string{
+			"user.go": c19UserGo(sp.g), "base.gen.go": b.Res.Base, "lexer.gen.go": b.Res.Lexer, "parser.gen.go": b.Res.Parser}})
+	}
+	vs := c19One(ws, l, &ctx.Stats)
+	c19Collect = nil
+	if len(vs) == 0 {
+		c19RunCompiled(ctx, sample)
+		vs = ctx.Stats.Violations
+	}
 	if len(vs) == 0 {
 		return nil
 	}
